@@ -164,6 +164,26 @@ theorem finishAnis_of_pos {l : α} {a : List α} (ll : Bool) (h : ∀ x ∈ a, (
   rw [if_pos]
   exact List.all_eq_true.mpr (fun x hx => by simpa using h x hx)
 
+/-- states reachable by ANY history: successful construction, then arbitrary setter calls, including
+    calls that raise (Python: `try: m.x = v  except ValueError: pass`) -/
+inductive Reach (sp : ClassSpec α) : State α → Prop where
+  | init {cfg : Cfg α} {s : State α} {w : Bool} : construct sp cfg = .ok (s, w) → Reach sp s
+  | step {s : State α} (op : Op α) : Reach sp s → Reach sp (step sp s op).st
+
+/-- setters that are neither bounds operations nor (for TPL classes, whose variance factor depends on it) the
+    unchecked `rescale` setter -/
+def Op.plain (sp : ClassSpec α) : Op α → Bool
+  | .setArgBounds _ _ => false
+  | .setBoundsProp _ _ => false
+  | .setRescale _ => !sp.tpl
+  | _ => true
+
+/-- states reachable by histories of plain setters none of which raised -/
+inductive ReachOk (sp : ClassSpec α) : State α → Prop where
+  | init {cfg : Cfg α} {s : State α} {w : Bool} : construct sp cfg = .ok (s, w) → ReachOk sp s
+  | step {s : State α} (op : Op α) : ReachOk sp s → Op.plain sp op = true → (step sp s op).err = none →
+      ReachOk sp (step sp s op).st
+
 /-- `error_case = 0` means: every value is inside the interval (stated with the comparisons the code makes) -/
 def InBnd (b : Bnd α) (v : α) : Prop :=
   (match b.lo with
@@ -173,19 +193,626 @@ def InBnd (b : Bnd α) (v : α) : Prop :=
     | none => True
     | some h => if b.hiC then ¬ h < v else ¬ h ≤ v)
 
+theorem ite2_zero {p q : Prop} [Decidable p] [Decidable q] {a b : Nat} (ha : a ≠ 0) (hb : b ≠ 0) :
+    (if p then a else if q then b else 0) = 0 ↔ ¬ q ∧ ¬ p := by
+  by_cases hp : p <;> by_cases hq : q <;> simp [hp, hq, ha, hb]
+
+theorem ite1_zero {p : Prop} [Decidable p] {a : Nat} (ha : a ≠ 0) :
+    (if p then a else 0) = 0 ↔ ¬ p := by
+  by_cases hp : p <;> simp [hp, ha]
+
 theorem errorCase_eq_zero_iff (b : Bnd α) (vals : List α) :
     errorCase b vals = 0 ↔ ∀ v ∈ vals, InBnd b v := by
   obtain ⟨lo, hi, loC, hiC⟩ := b
   cases lo <;> cases hi <;> cases loC <;> cases hiC <;>
     simp only [errorCase, InBnd, List.any_eq_true, decide_eq_true_eq, Bool.false_eq_true, if_true, if_false,
-      true_and, and_true] <;>
-    (try simp) <;>
-    (try (constructor
-          · intro h
-            split_ifs at h <;> simp_all
-          · intro h
-            split_ifs <;> simp_all))
+      true_and, and_true, implies_true] <;>
+    first
+    | (rw [ite2_zero (by decide) (by decide)]; push Not
+       exact ⟨fun h v hv => ⟨h.1 v hv, h.2 v hv⟩, fun h => ⟨fun v hv => (h v hv).1, fun v hv => (h v hv).2⟩⟩)
+    | (rw [ite1_zero (by decide)]; push Not; exact Iff.rfl)
+
+/-- all arguments inside their bounds -/
+def InBounds (sp : ClassSpec α) (s : State α) : Prop :=
+  InBnd s.varB (var sp s) ∧ InBnd s.lenB s.lenScale ∧ InBnd s.nugB s.nugget ∧
+    (∀ a ∈ s.anis, InBnd s.anisB a) ∧ ∀ o ∈ s.opt, InBnd o.bnd o.val
+
+theorem checkArgBounds_eq_none_iff (sp : ClassSpec α) (s : State α) :
+    checkArgBounds sp s = none ↔ InBounds sp s := by
+  unfold checkArgBounds InBounds
+  rw [List.findSome?_eq_none_iff]
+  simp only [argList, List.mem_append, List.mem_cons, List.mem_map, List.not_mem_nil, or_false]
+  constructor
+  · intro h
+    have hv := h ("var", s.varB, [var sp s]) (Or.inl (Or.inl rfl))
+    have hl := h ("len_scale", s.lenB, [s.lenScale]) (Or.inl (Or.inr (Or.inl rfl)))
+    have hn := h ("nugget", s.nugB, [s.nugget]) (Or.inl (Or.inr (Or.inr (Or.inl rfl))))
+    have ha := h ("anis", s.anisB, s.anis) (Or.inl (Or.inr (Or.inr (Or.inr rfl))))
+    simp only [ite_eq_left_iff, reduceCtorEq, imp_false, not_not] at hv hl hn ha
+    rw [errorCase_eq_zero_iff] at hv hl hn ha
+    refine ⟨hv _ (List.mem_singleton.mpr rfl), hl _ (List.mem_singleton.mpr rfl),
+      hn _ (List.mem_singleton.mpr rfl), ha, ?_⟩
+    intro o ho
+    have hopt := h (o.name, o.bnd, [o.val]) (Or.inr ⟨o, ho, rfl⟩)
+    simp only [ite_eq_left_iff, reduceCtorEq, imp_false, not_not] at hopt
+    rw [errorCase_eq_zero_iff] at hopt
+    exact hopt _ (List.mem_singleton.mpr rfl)
+  · rintro ⟨hv, hl, hn, ha, hopt⟩ e he
+    have key : errorCase e.2.1 e.2.2 = 0 := by
+      rw [errorCase_eq_zero_iff]
+      rcases he with (he | he | he | he) | ⟨o, ho, he⟩ <;> subst he <;> simp only [List.mem_singleton]
+      · intro v hv'; subst hv'; exact hv
+      · intro v hv'; subst hv'; exact hl
+      · intro v hv'; subst hv'; exact hn
+      · exact ha
+      · intro v hv'; subst hv'; exact hopt o ho
+    simp [key]
+
+/-- the end of every checking setter: no error means all arguments are inside their bounds -/
+theorem chk_ok {sp : ClassSpec α} {s : State α} {w : Bool} (h : (chk sp s w).err = none) :
+    InBounds sp (chk sp s w).st :=
+  (checkArgBounds_eq_none_iff sp s).mp h
+
+theorem doSetLenScale_ok {sp : ClassSpec α} {s : State α} {ls : List α} (h : (doSetLenScale sp s ls).err = none) :
+    InBounds sp (doSetLenScale sp s ls).st := by
+  unfold doSetLenScale at h ⊢
+  split at h
+  · cases h
+  · rename_i l a heq
+    exact chk_ok h
+
+theorem doSetAnis_ok {sp : ClassSpec α} {s : State α} {vs : List α} (h : (doSetAnis sp s vs).err = none) :
+    InBounds sp (doSetAnis sp s vs).st := by
+  unfold doSetAnis at h ⊢
+  split at h
+  · cases h
+  · rename_i l a heq
+    exact chk_ok h
+
+theorem doSetVar_ok {sp : ClassSpec α} {s : State α} {v : α} (h : (doSetVar sp s v).err = none) :
+    InBounds sp (doSetVar sp s v).st := by
+  unfold doSetVar at h ⊢
+  split at h
+  · cases h
+  · rename_i hne
+    simp only [if_neg hne]
+    exact chk_ok h
+
+theorem doSetOpt_ok {sp : ClassSpec α} {s : State α} {n : String} {v : α} (h : (doSetOpt sp s n v).err = none) :
+    InBounds sp (doSetOpt sp s n v).st := by
+  unfold doSetOpt at h ⊢
+  split at h
+  · cases h
+  · split at h
+    · cases h
+    · rename_i h1 h2
+      simp only [if_neg h1, if_neg h2]
+      exact chk_ok h
+
+theorem doSetDim_ok {sp : ClassSpec α} {s : State α} {d : Int} (h : (doSetDim sp s d).err = none) :
+    InBounds sp (doSetDim sp s d).st := by
+  unfold doSetDim at h ⊢
+  split at h
+  · cases h
+  · rename_i n w heq
+    split at h
+    · cases h
+    · rename_i l a heq2
+      exact chk_ok h
+
+theorem doSetIntegralScale_ok {sp : ClassSpec α} {s : State α} {vs : List α}
+    (h : (doSetIntegralScale sp s vs).err = none) : InBounds sp (doSetIntegralScale sp s vs).st := by
+  unfold doSetIntegralScale at h ⊢
+  split at h
+  · cases h
+  · simp only at h ⊢
+    by_cases h1 : (doSetLenScale sp s vs).err.isSome = true
+    · rw [if_pos h1] at h; rw [h] at h1; cases h1
+    · rw [if_neg h1] at h ⊢
+      by_cases h2 : (doSetLenScale sp (doSetLenScale sp s vs).st [one]).err.isSome = true
+      · rw [if_pos h2] at h; rw [h] at h2; cases h2
+      · rw [if_neg h2] at h ⊢
+        split at h
+        · cases h
+        · rename_i h3
+          rw [if_neg h3]
+          exact doSetLenScale_ok h
+
+/-- the state carries the bounds a freshly constructed model of its dimension has, and its optional
+    arguments are those of the class -/
+def DefaultBounds (sp : ClassSpec α) (s : State α) : Prop :=
+  s.varB = defVarB ∧ s.lenB = defLenB ∧ s.nugB = defNugB ∧ s.anisB = defAnisB ∧
+  s.opt.map (fun o => (o.name, o.bnd)) = (sp.opts s.dim).map (fun o => (o.name, o.bnd)) ∧
+  (s.opt.map (·.name)).Nodup
+
+theorem find_of_mem {C : List (OptArg α)} (hn : (C.map (·.name)).Nodup) {o : OptArg α} (ho : o ∈ C) :
+    (C.map (fun o => (o.name, o.val))).find? (fun p => p.1 == o.name) = some (o.name, o.val) := by
+  induction C with
+  | nil => cases ho
+  | cons b C' ih =>
+    simp only [List.map_cons, List.nodup_cons] at hn
+    simp only [List.map_cons, List.find?_cons]
+    rcases List.mem_cons.mp ho with h | h
+    · subst h; simp
+    · have hne : (b.name == o.name) = false := by
+        rw [beq_eq_false_iff_ne]
+        intro heq
+        exact hn.1 (heq ▸ List.mem_map_of_mem (f := (·.name)) h)
+      simp only [hne]
+      exact ih hn.2 h
+
+theorem merge_aux (C : List (OptArg α)) (hn : (C.map (·.name)).Nodup) :
+    ∀ (A B : List (OptArg α)), (∀ o ∈ B, o ∈ C) →
+      B.map (fun o => (o.name, o.bnd)) = A.map (fun o => (o.name, o.bnd)) →
+      A.map (mergeOpt (C.map (fun o => (o.name, o.val)))) = B := by
+  intro A
+  induction A with
+  | nil => intro B _ h; simpa using h
+  | cons a A' ih =>
+    intro B hB h
+    cases B with
+    | nil => simp at h
+    | cons b B' =>
+      simp only [List.map_cons, List.cons.injEq, Prod.mk.injEq] at h
+      obtain ⟨⟨hname, hbnd⟩, hrest⟩ := h
+      have hb : b ∈ C := hB b (List.mem_cons_self ..)
+      have hf := find_of_mem hn hb
+      rw [hname] at hf
+      simp only [List.map_cons, mergeOpt, hf]
+      congr 1
+      · obtain ⟨n1, v1, b1⟩ := a
+        obtain ⟨n2, v2, b2⟩ := b
+        simp only at hname hbnd
+        subst hname hbnd
+        rfl
+      · exact ih B' (fun o ho => hB o (List.mem_cons_of_mem _ ho)) hrest
+
+/-- reading the optional arguments off a model and passing them to the constructor gives them back -/
+theorem merge_opts {A B : List (OptArg α)} (h : B.map (fun o => (o.name, o.bnd)) = A.map (fun o => (o.name, o.bnd)))
+    (hn : (B.map (·.name)).Nodup) :
+    A.map (mergeOpt (B.map (fun o => (o.name, o.val)))) = B :=
+  merge_aux B hn A B (fun _ ho => ho) h
+
+theorem no_unknown_opts {A B : List (OptArg α)} (h : B.map (fun o => (o.name, o.bnd)) = A.map (fun o => (o.name, o.bnd))) :
+    (B.map (fun o => (o.name, o.val))).any (fun p => !A.any (fun o => o.name == p.1)) = false := by
+  rw [List.any_eq_false]
+  intro p hp
+  obtain ⟨o, ho, rfl⟩ := List.mem_map.mp hp
+  have hmem : (o.name, o.bnd) ∈ A.map (fun o => (o.name, o.bnd)) := h ▸ List.mem_map_of_mem ho
+  obtain ⟨a, ha, hae⟩ := List.mem_map.mp hmem
+  simp only [Prod.mk.injEq] at hae
+  simp only [Bool.not_eq_true, Bool.not_eq_false', List.any_eq_true]
+  exact ⟨a, ha, by simp [hae.1]⟩
 
 end lawfree
+
+/-! ## Part 2: over a linearly ordered field -/
+section field
+variable {F : Type} [Field F] [LinearOrder F] [IsStrictOrderedRing F] [HasRPow F]
+
+/-- the operation bundle of the model, filled with the field's own operations -/
+@[reducible] def arithOfField : Arith F := {}
+attribute [local instance] arithOfField
+
+theorem zero_eq : (zero : F) = 0 := by simp [zero]
+theorem one_eq : (one : F) = 1 := by simp [one]
+theorem two_eq : (two : F) = 2 := by simp [two]
+
+theorem zero_lt_one' : (zero : F) < (one : F) := by rw [zero_eq, one_eq]; exact zero_lt_one
+
+theorem absA_eq_abs (x : F) : absA x = |x| := by
+  unfold absA
+  rw [zero_eq]
+  split
+  · rename_i h; exact (abs_of_neg h).symm
+  · rename_i h; exact (abs_of_nonneg (not_lt.mp h)).symm
+
+theorem absA_pos {x : F} (h : absA x ≠ (zero : F)) : (zero : F) < absA x := by
+  rw [absA_eq_abs, zero_eq] at *
+  exact lt_of_le_of_ne (abs_nonneg x) (Ne.symm h)
+
+theorem absA_of_pos {x : F} (h : (zero : F) < x) : absA x = x := by
+  rw [absA_eq_abs]; rw [zero_eq] at h; exact abs_of_pos h
+
+theorem setAnisL_pos {d : Nat} {l : List F} (h : ∀ x ∈ l, (zero : F) < x) : ∀ x ∈ setAnisL d l, (zero : F) < x := by
+  intro x hx
+  simp only [setAnisL] at hx
+  rcases List.mem_append.mp hx with h1 | h1
+  · rw [(List.mem_replicate.mp h1).2]; exact zero_lt_one'
+  · exact h x (List.mem_of_mem_take h1)
+
+/-- successful `finishAnis` on a list of length `n`: shape of the result -/
+theorem finishAnis_wf {l0 l : F} {b a : List F} {ll : Bool} {n : Nat} (hb : b.length = n)
+    (h : finishAnis l0 b ll = .ok (l, a)) :
+    l = l0 ∧ a.length = n ∧ (∀ x ∈ a, (zero : F) < x) ∧
+      (ll = true → a.take 2 = List.replicate (min 2 a.length) (one : F)) := by
+  obtain ⟨h1, h2, h3⟩ := finishAnis_ok h
+  subst h3
+  refine ⟨h1, ?_, ?_, ?_⟩
+  · split
+    · rw [isoFirst2_length]; exact hb
+    · exact hb
+  · intro x hx
+    split at hx
+    · rcases mem_isoFirst2 hx with h | h
+      · rw [h]; exact zero_lt_one'
+      · exact h2 x h
+    · exact h2 x hx
+  · intro hll
+    rw [if_pos hll]
+    exact isoFirst2_take b
+
+theorem setLenAnis_single {d : Nat} (hd : 1 ≤ d) (l : F) (anis : List F) (ll : Bool) :
+    setLenAnis d [l] anis ll = finishAnis l (setAnisL d anis) ll := by
+  unfold setLenAnis
+  have : List.take d [l] = [l] := List.take_of_length_le (by simpa using hd)
+  rw [this]
+
+/-- successful `set_len_anis`: `d-1` positive ratios, isotropic in space for lat-lon models -/
+theorem setLenAnis_ok {d : Nat} {ls anis : List F} {ll : Bool} {l : F} {a : List F}
+    (h : setLenAnis d ls anis ll = .ok (l, a)) :
+    a.length = d - 1 ∧ (∀ x ∈ a, (zero : F) < x) ∧
+      (ll = true → a.take 2 = List.replicate (min 2 a.length) (one : F)) := by
+  unfold setLenAnis at h
+  split at h
+  · cases h
+  · exact (finishAnis_wf (setAnisL_length d anis) h).2
+  · rename_i l0 l2 rest heq
+    split at h
+    · cases h
+    · have hlen : rest.length + 2 ≤ d := by
+        have := congrArg List.length heq
+        simp only [List.length_take, List.length_cons] at this
+        omega
+      refine (finishAnis_wf ?_ h).2
+      simp only [List.length_map, List.length_append, List.length_replicate, List.length_cons]
+      omega
+
+/-- `set_len_anis` with a single length scale reproduces a well-formed anisotropy -/
+theorem setLenAnis_fixed {s : State F} (h : WF s) :
+    setLenAnis s.dim [s.lenScale] s.anis s.latlon = .ok (s.lenScale, s.anis) := by
+  rw [setLenAnis_single h.dim_pos, setAnisL_of_length h.anis_len, finishAnis_of_pos _ h.anis_pos]
+  cases hl : s.latlon
+  · rfl
+  · rw [if_pos rfl, isoFirst2_fixed (h.latlon_iso hl)]
+
+/-- the dimension rule: what a successful result looks like -/
+theorem dimRule_ok {sp : ClassSpec F} {ll t : Bool} {d : Int} {n : Nat} {w : Bool}
+    (h : dimRule sp ll t d = .ok (n, w)) : 1 ≤ n ∧ (ll = true → n = 3 + tNat t) := by
+  unfold dimRule at h
+  cases hfd : sp.fixDim <;> simp only [hfd] at h <;> split_ifs at h <;>
+    simp only [Except.ok.injEq, Prod.mk.injEq] at h <;> obtain ⟨hn, _⟩ := h <;> subst hn <;>
+    (constructor
+     · omega
+     · intro hll; simp_all; try omega)
+
+theorem wf_doSetLenScale (sp : ClassSpec F) {s : State F} (ls : List F) (h : WF s) :
+    WF (doSetLenScale sp s ls).st := by
+  unfold doSetLenScale
+  split
+  · exact h
+  · rename_i l a heq
+    obtain ⟨h1, h2, h3⟩ := setLenAnis_ok heq
+    exact ⟨h.dim_pos, h1, h.angles_len, h2, h.latlon_dim, h3, h.latlon_ang, h.temporal_ang, h.rescale_pos⟩
+
+theorem wf_doSetAnis (sp : ClassSpec F) {s : State F} (vs : List F) (h : WF s) :
+    WF (doSetAnis sp s vs).st := by
+  unfold doSetAnis
+  split
+  · exact h
+  · rename_i l a heq
+    obtain ⟨h1, h2, h3⟩ := setLenAnis_ok heq
+    exact ⟨h.dim_pos, h1, h.angles_len, h2, h.latlon_dim, h3, h.latlon_ang, h.temporal_ang, h.rescale_pos⟩
+
+theorem wf_doSetVar (sp : ClassSpec F) {s : State F} (v : F) (h : WF s) : WF (doSetVar sp s v).st := by
+  unfold doSetVar
+  split
+  · exact h
+  · exact ⟨h.dim_pos, h.anis_len, h.angles_len, h.anis_pos, h.latlon_dim, h.latlon_iso, h.latlon_ang,
+      h.temporal_ang, h.rescale_pos⟩
+
+theorem wf_doSetOpt (sp : ClassSpec F) {s : State F} (n : String) (v : F) (h : WF s) :
+    WF (doSetOpt sp s n v).st := by
+  unfold doSetOpt
+  split
+  · exact h
+  · split
+    · exact h
+    · exact ⟨h.dim_pos, h.anis_len, h.angles_len, h.anis_pos, h.latlon_dim, h.latlon_iso, h.latlon_ang,
+        h.temporal_ang, h.rescale_pos⟩
+
+theorem wf_doSetRescale (sp : ClassSpec F) {s : State F} (v : Option F) (h : WF s) :
+    WF (doSetRescale sp s v).st := by
+  unfold doSetRescale
+  split
+  · exact h
+  · split
+    · exact h
+    · rename_i hne
+      exact ⟨h.dim_pos, h.anis_len, h.angles_len, h.anis_pos, h.latlon_dim, h.latlon_iso, h.latlon_ang,
+        h.temporal_ang, absA_pos hne⟩
+
+theorem wf_setAngles (sp : ClassSpec F) {s : State F} (vs : List F) (h : WF s) :
+    WF ({ s with angles := setModelAngles s.dim vs s.latlon s.temporal } : State F) := by
+  refine ⟨h.dim_pos, h.anis_len, setModelAngles_length _ _ _ _, h.anis_pos, h.latlon_dim, h.latlon_iso, ?_, ?_,
+    h.rescale_pos⟩
+  · intro hl a ha
+    have hl' : s.latlon = true := hl
+    rw [hl'] at ha
+    exact setModelAngles_latlon s.dim vs s.temporal a ha
+  · intro ht a ha
+    have ht' : s.temporal = true := ht
+    rw [ht'] at ha
+    exact setModelAngles_temporal s.dim vs s.latlon a ha
+
+theorem wf_doSetDim (sp : ClassSpec F) {s : State F} (d : Int) (h : WF s) : WF (doSetDim sp s d).st := by
+  unfold doSetDim
+  split
+  · exact h
+  · rename_i n w heq
+    obtain ⟨hn, hll⟩ := dimRule_ok heq
+    have hsingle := setLenAnis_single hn s.lenScale s.anis false
+    have hfin : finishAnis s.lenScale (setAnisL n s.anis) false = .ok (s.lenScale, setAnisL n s.anis) := by
+      rw [finishAnis_of_pos _ (setAnisL_pos h.anis_pos)]; rfl
+    rw [hsingle, hfin]
+    simp only [chk]
+    refine ⟨hn, setAnisL_length _ _, setModelAngles_length _ _ _ _, setAnisL_pos h.anis_pos, hll, ?_, ?_, ?_,
+      h.rescale_pos⟩
+    · intro hl
+      have hnd : n = s.dim := by rw [hll hl, h.latlon_dim hl]
+      simp only [hnd, setAnisL_of_length h.anis_len]
+      exact h.latlon_iso hl
+    · intro hl a ha
+      have hl' : s.latlon = true := hl
+      rw [hl'] at ha
+      exact setModelAngles_latlon n s.angles s.temporal a ha
+    · intro ht a ha
+      have ht' : s.temporal = true := ht
+      rw [ht'] at ha
+      exact setModelAngles_temporal n s.angles s.latlon a ha
+
+theorem wf_doSetIntegralScale (sp : ClassSpec F) {s : State F} (vs : List F) (h : WF s) :
+    WF (doSetIntegralScale sp s vs).st := by
+  unfold doSetIntegralScale
+  split
+  · exact h
+  · simp only
+    have h1 := wf_doSetLenScale sp vs h
+    split
+    · exact h1
+    · have h2 := wf_doSetLenScale sp [(one : F)] h1
+      split
+      · exact h2
+      · split
+        · exact h2
+        · exact wf_doSetLenScale sp _ h2
+
+/-- `WF` only looks at dim, ratios, angles, flags and rescale -/
+theorem WF.congr {s s' : State F} (h : WF s) (hd : s'.dim = s.dim) (ha : s'.anis = s.anis)
+    (hang : s'.angles = s.angles) (hl : s'.latlon = s.latlon) (ht : s'.temporal = s.temporal)
+    (hr : s'.rescale = s.rescale) : WF s' := by
+  obtain ⟨d, l, t, vr, ls, an, ang, ng, rs, op, b1, b2, b3, b4⟩ := s'
+  simp only at hd ha hang hl ht hr
+  subst hd ha hang hl ht hr
+  exact ⟨h.dim_pos, h.anis_len, h.angles_len, h.anis_pos, h.latlon_dim, h.latlon_iso, h.latlon_ang,
+    h.temporal_ang, h.rescale_pos⟩
+
+theorem wf_storeBnd {s s1 : State F} {arg : String} {b : Bnd F} (hs : storeBnd s arg b = some s1) (h : WF s) :
+    WF s1 := by
+  unfold storeBnd at hs
+  split at hs
+  · injection hs with hs; subst hs; exact h.congr rfl rfl rfl rfl rfl rfl
+  · split at hs <;> first
+      | (injection hs with hs; subst hs; exact h.congr rfl rfl rfl rfl rfl rfl)
+      | cases hs
+
+theorem wf_assignDefault (sp : ClassSpec F) {s : State F} (arg : String) (b : Bnd F) (h : WF s) :
+    WF (assignDefault sp s arg b).st := by
+  unfold assignDefault
+  split
+  · exact wf_doSetVar sp _ h
+  · exact wf_doSetLenScale sp _ h
+  · exact h.congr rfl rfl rfl rfl rfl rfl
+  · exact wf_doSetAnis sp _ h
+  · exact wf_doSetOpt sp _ _ h
+
+theorem wf_argBoundsLoop (sp : ClassSpec F) (check : Bool) (bs : List (String × RawBnd F)) :
+    ∀ (s : State F) (vb : Option (Bnd F)), WF s → WF (argBoundsLoop sp check bs s vb).st := by
+  induction bs with
+  | nil =>
+    intro s vb h
+    unfold argBoundsLoop
+    split
+    · exact h
+    · rename_i b
+      have h1 : WF ({ s with varB := b } : State F) := h.congr rfl rfl rfl rfl rfl rfl
+      simp only
+      split
+      · exact wf_assignDefault sp _ _ h1
+      · exact h1
+  | cons p rest ih =>
+    intro s vb h
+    obtain ⟨arg, raw⟩ := p
+    unfold argBoundsLoop
+    split
+    · exact h
+    · rename_i b _
+      split
+      · exact ih _ _ h
+      · split
+        · exact h
+        · rename_i s1 hs1
+          have h1 := wf_storeBnd hs1 h
+          split
+          · have h2 := wf_assignDefault sp arg b h1
+            simp only
+            split
+            · exact h2
+            · exact ih _ _ h2
+          · exact ih _ _ h1
+
+theorem wf_doSetBoundsProp {s : State F} (arg : String) (raw : RawBnd F) (h : WF s) :
+    WF (doSetBoundsProp s arg raw).st := by
+  unfold doSetBoundsProp
+  split
+  · exact h
+  · split <;> first | exact h.congr rfl rfl rfl rfl rfl rfl | exact h
+
+/-- every setter — also one that raises — leaves a structurally well-formed state -/
+theorem wf_step (sp : ClassSpec F) {s : State F} (op : Op F) (h : WF s) : WF (step sp s op).st := by
+  cases op with
+  | setDim d => exact wf_doSetDim sp d h
+  | setVar v => exact wf_doSetVar sp v h
+  | setVarRaw v => exact h.congr rfl rfl rfl rfl rfl rfl
+  | setNugget v => exact h.congr rfl rfl rfl rfl rfl rfl
+  | setLenScale vs => exact wf_doSetLenScale sp vs h
+  | setAnis vs => exact wf_doSetAnis sp vs h
+  | setAngles vs => exact wf_setAngles sp vs h
+  | setRescale v => exact wf_doSetRescale sp v h
+  | setOpt n v => exact wf_doSetOpt sp n v h
+  | setIntegralScale vs => exact wf_doSetIntegralScale sp vs h
+  | setArgBounds check bs => exact wf_argBoundsLoop sp check bs s none h
+  | setBoundsProp arg b => exact wf_doSetBoundsProp arg b h
+
+theorem initVar_ok {sp : ClassSpec F} {cfg : Cfg F} {s s' : State F} (h : initVar sp cfg s = .ok s') :
+    (∃ v, s' = { s with varRaw := v }) ∧ (cfg.varRaw = none → checkArgBounds sp s' = none) := by
+  unfold initVar at h
+  split at h
+  · injection h with h; subst h
+    rename_i r hr
+    exact ⟨⟨r, rfl⟩, fun hn => by rw [hr] at hn; cases hn⟩
+  · split at h
+    · cases h
+    · split at h
+      · cases h
+      · rename_i hc
+        injection h with h; subst h
+        exact ⟨⟨_, rfl⟩, fun _ => hc⟩
+
+/-- a successfully constructed model is structurally well-formed and inside its bounds -/
+theorem construct_ok {sp : ClassSpec F} {cfg : Cfg F} {s : State F} {w : Bool}
+    (h : construct sp cfg = .ok (s, w)) : WF s ∧ checkArgBounds sp s = none := by
+  unfold construct at h
+  simp only at h
+  split at h
+  · cases h
+  · rename_i d w1 hdim
+    obtain ⟨hd, hll⟩ := dimRule_ok hdim
+    split at h
+    · cases h
+    · split at h
+      · cases h
+      · rename_i r hr
+        split at h
+        · cases h
+        · rename_i hr0
+          split at h
+          · cases h
+          · rename_i l a hla
+            obtain ⟨ha1, ha2, ha3⟩ := setLenAnis_ok hla
+            split at h
+            · cases h
+            · split at h
+              · cases h
+              · rename_i s1 hs1
+                obtain ⟨⟨v1, hv1⟩, _⟩ := initVar_ok hs1
+                split at h
+                · cases h
+                · rename_i hr2
+                  split at h
+                  · cases h
+                  · rename_i s3 hs3
+                    obtain ⟨⟨v3, hv3⟩, _⟩ := initVar_ok hs3
+                    split at h
+                    · cases h
+                    · rename_i hc
+                      injection h with h
+                      injection h with h _
+                      subst h
+                      refine ⟨?_, hc⟩
+                      have hwf0 : WF s1 := by
+                        subst hv1
+                        refine ⟨hd, ha1, setModelAngles_length _ _ _ _, ha2, hll, ha3, ?_, ?_, absA_pos hr0⟩
+                        · intro hl a ha
+                          have hl' : cfg.latlon = true := hl
+                          rw [hl'] at ha
+                          exact setModelAngles_latlon d cfg.angles cfg.temporal a ha
+                        · intro ht a ha
+                          have ht' : cfg.temporal = true := ht
+                          rw [ht'] at ha
+                          exact setModelAngles_temporal d cfg.angles cfg.latlon a ha
+                      have hwf2 : WF (match cfg.integralScale with
+                          | none => (⟨s1, none, false⟩ : Res F)
+                          | some v => doSetIntegralScale sp s1 v).st := by
+                        split
+                        · exact hwf0
+                        · exact wf_doSetIntegralScale sp _ hwf0
+                      subst hv3
+                      exact hwf2.congr rfl rfl rfl rfl rfl rfl
+
+theorem dimRule_self {sp : ClassSpec F} {s : State F} (h : WF s)
+    (hfix : sp.fixDim = none ∨ sp.fixDim = some s.dim) :
+    dimRule sp s.latlon s.temporal (s.dim : Int) = .ok (s.dim, !sp.checkDim s.dim) := by
+  have hd := h.dim_pos
+  unfold dimRule
+  rcases hfix with hf | hf <;> simp only [hf] <;> cases hl : s.latlon
+  · simp; omega
+  · have := h.latlon_dim hl
+    simp [← this]; omega
+  · simp; omega
+  · have := h.latlon_dim hl
+    simp [← this]; omega
+
+theorem initVar_cfgOf {sp : ClassSpec F} {s : State F} (v0 : F) (hvf : varFactor sp s ≠ 0)
+    (hin : checkArgBounds sp s = none) :
+    initVar sp (cfgOf sp s) { s with varRaw := v0 } = .ok s := by
+  have hvf' : ¬ (varFactor sp ({ s with varRaw := v0 } : State F) = (zero : F)) := by
+    rw [zero_eq]; exact hvf
+  have hs : ({ s with varRaw := var sp s / varFactor sp s } : State F) = s := by
+    have : var sp s / varFactor sp s = s.varRaw := by
+      unfold var; exact mul_div_cancel_right₀ _ hvf
+    rw [this]
+  unfold initVar
+  simp only [cfgOf]
+  rw [if_neg hvf']
+  have h2 : ({ ({ s with varRaw := v0 } : State F) with
+      varRaw := var sp s / varFactor sp ({ s with varRaw := v0 } : State F) } : State F) = s := hs
+  rw [h2, hin]
+
+/-- the model equals one constructed directly with the values read off it -/
+theorem construct_cfgOf {sp : ClassSpec F} {s : State F} (h : WF s)
+    (hfix : sp.fixDim = none ∨ sp.fixDim = some s.dim) (hb : DefaultBounds sp s)
+    (hin : checkArgBounds sp s = none) (hvf : varFactor sp s ≠ 0)
+    (hh : sp.tpl = true → optGet s "hurst" ≠ 0) :
+    construct sp (cfgOf sp s) = .ok (s, !sp.checkDim s.dim || optWarn sp s) := by
+  obtain ⟨hb1, hb2, hb3, hb4, hb5, hb6⟩ := hb
+  have hmerge := merge_opts hb5 hb6
+  have hunk := no_unknown_opts hb5
+  have hs0 : (⟨s.dim, s.latlon, s.temporal, (zero : F), s.lenScale, s.anis, s.angles, s.nugget, s.rescale,
+      s.opt, defVarB, defLenB, defNugB, defAnisB⟩ : State F) = { s with varRaw := (zero : F) } := by
+    rw [← hb1, ← hb2, ← hb3, ← hb4]
+  have hhurst : (sp.tpl && decide (optGet ({ s with varRaw := (zero : F) } : State F) "hurst" = (zero : F))) = false := by
+    cases ht : sp.tpl
+    · rfl
+    · have := hh ht
+      rw [← zero_eq] at this
+      simp only [Bool.true_and, decide_eq_false_iff_not]
+      exact this
+  have hresc : ¬ (s.rescale = (zero : F)) := ne_of_gt h.rescale_pos
+  unfold construct
+  simp only [cfgOf]
+  rw [dimRule_self h hfix]
+  simp only [hunk, Bool.false_eq_true, if_false, hmerge, if_neg hresc, setLenAnis_fixed h,
+    setModelAngles_fixed h.angles_len h.latlon_ang h.temporal_ang, absA_of_pos h.rescale_pos, hs0, hhurst]
+  have hi := initVar_cfgOf (sp := sp) (s := s) (zero : F) hvf hin
+  simp only [cfgOf] at hi
+  rw [hi]
+  simp only
+  have hi2 := initVar_cfgOf (sp := sp) (s := s) s.varRaw hvf hin
+  simp only [cfgOf] at hi2
+  rw [hi2]
+  simp only [hin]
+
+end field
 
 end GSV.Lemmas.CovState
